@@ -107,7 +107,12 @@ Proof.
         -- eapply not_logged_state; [apply C|]. unfold not_logged, logged_or_probing. cbn. rewrite St. reflexivity.
         -- eapply forall_types_one; [exact T|]. right. right. reflexivity.
       * destruct (c_approve cfg ns); cbn [negb] in H.
-        -- right.
+        -- match type of H with context [Z.leb ?hb 0] => destruct (Z.leb hb 0) end.
+           { left. destruct (session_send cfg (upd_settings s ns) _) as [s2 o2] eqn:E. inversion H; subst.
+             types_of E. split.
+             - eapply not_logged_state; [apply C|]. unfold not_logged, logged_or_probing. cbn. rewrite St. reflexivity.
+             - eapply forall_types_one; [exact T|]. right. right. reflexivity. }
+           right.
            destruct (change_state (start_timers (upd_settings s ns)) SuccessfulLogged) as [s3 o3] eqn:E3.
            destruct (session_send cfg s3 _) as [s4 o4] eqn:E4.
            destruct (process_inc_seq cfg s4 _) as [s5 o5] eqn:E5. inversion H; subst.
@@ -362,14 +367,18 @@ Proof.
     destruct (value_by_tag d tag_MsgSeqNum) as [sb| | |]; try (inversion H; subst; constructor).
     destruct (atoi sb); [|inversion H; subst; constructor].
     destruct (value_by_tag d tag_MsgType); inversion H; subst; constructor.
-  - destruct (parse_as _ _ d) as [rm| | |]; try (pair_split H; inversion H; subst; grows_chain).
+  - destruct (parse_as _ _ d) as [rm| | |];
+      [|pair_split H; inversion H; subst; grows_chain|pair_split H; inversion H; subst; grows_chain|pair_split H; inversion H; subst; grows_chain].
     destruct (negb (is_logged s)); [pair_split H; inversion H; subst; grows_chain|].
     destruct (store_messages s _ _); [pair_split H; inversion H; subst; grows_chain|inversion H; subst; constructor].
-  - destruct (parse_as _ _ d) as [lm| | |]; try (pair_split H; inversion H; subst; grows_chain).
+  - destruct (parse_as _ _ d) as [lm| | |];
+      [|pair_split H; inversion H; subst; grows_chain|pair_split H; inversion H; subst; grows_chain|pair_split H; inversion H; subst; grows_chain].
     destruct (s_state s); try (inversion H; subst; constructor).
     + set (ns := {| st_target := _ |}) in H.
       destruct (check_logon_params cfg (upd_settings s ns) _ _); [pair_split H; inversion H; subst; grows_chain|].
       destruct (negb (c_approve cfg ns)); [pair_split H; inversion H; subst; grows_chain|].
+      match type of H with context [Z.leb ?hb 0] => destruct (Z.leb hb 0) end;
+        [pair_split H; inversion H; subst; grows_chain|].
       destruct (change_state (start_timers (upd_settings s ns)) SuccessfulLogged) as [s3 o3] eqn:E3.
       apply change_state_grows in E3.
       pair_split H. inversion H; subst.
@@ -378,7 +387,8 @@ Proof.
       eapply grows_trans; [exact G0|]. eapply grows_trans; [exact E3|]. eapply grows_trans; eassumption.
     + pair_split H. inversion H; subst. grows_chain.
     + pair_split H. inversion H; subst. grows_chain.
-  - destruct (parse_as _ _ d) as [lm| | |]; try (pair_split H; inversion H; subst; grows_chain).
+  - destruct (parse_as _ _ d) as [lm| | |];
+      [|pair_split H; inversion H; subst; grows_chain|pair_split H; inversion H; subst; grows_chain|pair_split H; inversion H; subst; grows_chain].
     destruct (s_state s).
     all: try (destruct (reject_message cfg s d) as [s1 o1] eqn:E1; apply reject_message_grows in E1;
               destruct (change_state (stop_timers s1) _) as [s3 o3] eqn:E3; apply change_state_grows in E3;
@@ -393,9 +403,11 @@ Proof.
       destruct (change_state (stop_timers sb) _) as [s3 o3] eqn:E3. apply change_state_grows in E3.
       inversion H; subst. cbn [s_in stop_timers upd_timers] in *.
       eapply grows_trans; [exact Ea|]. eapply grows_trans; eassumption.
-  - destruct (parse_as _ _ d) as [lm| | |]; try (pair_split H; inversion H; subst; grows_chain).
+  - destruct (parse_as _ _ d) as [lm| | |];
+      [|pair_split H; inversion H; subst; grows_chain|pair_split H; inversion H; subst; grows_chain|pair_split H; inversion H; subst; grows_chain].
     destruct (negb (is_logged s)); [pair_split H; inversion H; subst; grows_chain|inversion H; subst; constructor].
-  - destruct (parse_as _ _ d) as [lm| | |]; try (pair_split H; inversion H; subst; grows_chain).
+  - destruct (parse_as _ _ d) as [lm| | |];
+      [|pair_split H; inversion H; subst; grows_chain|pair_split H; inversion H; subst; grows_chain|pair_split H; inversion H; subst; grows_chain].
     destruct (negb (is_logged s)); pair_split H; inversion H; subst; grows_chain.
   - destruct (lstate_eqb _ _); inversion H; subst; constructor.
   - inversion H; subst. constructor.
